@@ -1,13 +1,76 @@
-(* C08 — pinned statements; proofs live in Proofs/. *)
-From NW Require Import Base.Bytes Model.SchemaTypes Gen.Schema Model.Codec Model.Ids Model.Server.
+(* C08 — Modulator payload gate is fail-closed; alterations are delivered faithfully.
+   Pinned statements (types pasted verbatim from the proved lemmas by tools/pin.py); proofs in Proofs/Server*.v. *)
+From NW Require Import Base.Bytes Model.SchemaTypes Gen.Schema Model.Codec Model.MsgInfo Model.Ids Model.Server.
+From NW Require Import Proofs.ServerLib Proofs.ServerRoute Proofs.ServerHandlers Proofs.ServerSteps Proofs.ServerPhases.
+From NW Require Import Proofs.ServerInvBase Proofs.ServerInv Proofs.ServerUniq Proofs.ServerInvCor.
 
-(* the model computes: a client connects, identifies and creates a channel *)
-Example C08_model_smoke :
-  let cfg := {| domain := bs "localhost"; has_mod := false; op_auth := false; op_fbp := false; op_fev := false; op_spp := false;
-                proto := []; max_clients := 10; max_subs := 10; max_payload_cfg := 1024; max_inflight := 10; max_message := 1024;
-                keepalive := 60000; min_keepalive := 1000; max_conns := 16; pool_budget := 4194304 |} in
-  let s := run_state cfg init [Open 1; Bytes 1 (bs "CONNECT version=1 heartbeat_interval=0" ++ [NL]) [] [];
-                               Bytes 1 (bs "IDENTIFY username=alice" ++ [NL]) [] [];
-                               Bytes 1 (bs "JOIN id=1 channel=!c1@localhost" ++ [NL]) [] []] in
-  map fst (chans s) = [bs "c1"] /\ map fst (router s) = [bs "alice"].
-Proof. vm_compute. split; reflexivity. Qed.
+Theorem C08_gate_fail_closed :
+  forall (cfg : scfg) (h : N) (me : nid) (m : msg) (payload : list N) (c : ctx),
+    has_mod cfg = true ->
+    head_outcome (script c) = MInvalid \/ head_outcome (script c) = MErr ->
+    st (fst (h_broadcast cfg h me m payload c)) = st c /\
+    (forall (h' : N) (m' : msg) (q : option (list N)),
+     ~ In (OSend h' m' q) (new_outs c (fst (h_broadcast cfg h me m payload c)))) /\
+    (forall hd dom : str,
+     chan_parse (get_str m "channel") = Some (hd, dom) ->
+     new_outs c (fst (h_broadcast cfg h me m payload c)) =
+     [OMod (McFbp (nid_full me) hd payload)] /\
+     snd (h_broadcast cfg h me m payload c) =
+     Some
+       (PErr (Some (get_num m "id"))
+          match head_outcome (script c) with
+          | MInvalid => "BAD_REQUEST"
+          | _ => "INTERNAL_SERVER_ERROR"
+          end)) /\
+    (chan_parse (get_str m "channel") = None ->
+     h_broadcast cfg h me m payload c = (c, Some (PErr None "BAD_REQUEST"))).
+Proof. exact C08_fail_closed. Qed.
+
+Theorem C08_alteration_exact :
+  forall (cfg : scfg) (h : N) (me : nid) (m : msg) (payload : list N) (c : ctx) (p' : list N),
+    has_mod cfg = true ->
+    head_outcome (script c) = MAltered p' ->
+    forall (h' : N) (m' : msg) (q : list N),
+    In (OSend h' m' (Some q)) (new_outs c (fst (h_broadcast cfg h me m payload c))) ->
+    q = p' /\ get_num m' "length" = N.of_nat (Datatypes.length p').
+Proof. exact C08_altered. Qed.
+
+Theorem C08_no_alteration_passthrough :
+  forall (cfg : scfg) (h : N) (me : nid) (m : msg) (payload : list N) (c : ctx),
+    has_mod cfg = false \/ (forall p' : list N, head_outcome (script c) <> MAltered p') ->
+    forall (h' : N) (m' : msg) (q : list N),
+    In (OSend h' m' (Some q)) (new_outs c (fst (h_broadcast cfg h me m payload c))) ->
+    q = payload.
+Proof. exact C08_passthrough. Qed.
+
+Theorem C08_attribution :
+  forall (cfg : scfg) (h : N) (me : nid) (m : msg) (payload : list N) 
+      (c : ctx) (h' : N) (m' : msg) (q : list N),
+    In (OSend h' m' (Some q)) (new_outs c (fst (h_broadcast cfg h me m payload c))) ->
+    is_kind m' "MESSAGE" = true /\
+    get_str m' "from" = nid_full me /\
+    get_str m' "channel" = get_str m "channel" /\
+    get_num m' "length" = N.of_nat (Datatypes.length q) /\ h' <> h.
+Proof. exact C08_message_attribution. Qed.
+
+Theorem C08_whole_frame :
+  forall (cfg : scfg) (h : N) (m : msg) (p : option (list N)) (c : ctx) (cn : conn) (me : nid),
+    nlookup h (conns (st c)) = Some cn ->
+    c_phase cn = Authenticated ->
+    c_nid cn = Some me ->
+    existsb (N.eqb h) (closing c) = false ->
+    max_inflight cfg <> 0 ->
+    is_kind m "BROADCAST" = true ->
+    let pl := match p with
+              | Some x => x
+              | None => []
+              end in
+    let c' := on_frame cfg h m p c in
+    st c' = st c /\
+    (forall (h' : N) (m' : msg) (q : list N),
+     In (OSend h' m' (Some q)) (new_outs c c') ->
+     q = eff_payload cfg pl (script c) /\ m' = message_for me m q /\ h' <> h) /\
+    (has_mod cfg = true ->
+     head_outcome (script c) = MInvalid \/ head_outcome (script c) = MErr ->
+     forall (h' : N) (m' : msg) (q : list N), ~ In (OSend h' m' (Some q)) (new_outs c c')).
+Proof. exact C08_on_frame. Qed.
